@@ -102,9 +102,39 @@ claim('C09',
       'explored; round count, phase order and data flow, the stop-iff-fixed-point rule, what is returned and scored, '
       'and pool handling are discharged per path.', _TB, 'DESIGN.md section 5, C09')
 
+claim('C14',
+      'Python-level half only: the real main loop and optimiser plumbing run on a stub pool whose completion order is '
+      'a solver-chosen permutation, with the optimiser as an uninterpreted function of its arguments and named symbolic '
+      'summaries, so that two runs are comparable term for term: every permutation, every num_processors in 1..8, the '
+      'multiprocessing variable unset/empty/set, a repeated run, and every order of earlier calls with other (N,W) '
+      '(functools caches populated) give term-equal results; cached index lists are not mutated.',
+      _TB + 'Bit-identity across real worker processes / BLAS threading / OS scheduling is outside the claim; the '
+      'replay oracle exercises real processes with permuting delays on witnesses only.', 'DESIGN.md section 5, C14')
+claim('C18',
+      'Type forms are type tags on symbolic values and the real isinstance dispatch runs against them: Z-update with '
+      'lambda as python float/int/np.float64/np.float32/np.int64 and as scalar vs constant matrix (symbolic x,u,rho), '
+      'kernel with scalar beta in each form vs the constant vector, floor filter with eps in each form, and both front '
+      'ends handing the caller\'s very objects to the main loop.',
+      _TB + 'The same real value is used for all forms (np.float32 rounding of the value itself is outside).',
+      'DESIGN.md section 5, C18')
+claim('C19',
+      'Every shim array carries an owner tag and a writeable flag; caller-owned arguments are created read-only and any '
+      'write raises as NumPy would. The kernel, the optimiser entry point (<=2 iterations, rho callback on/off), the '
+      'floor filter, the stacking helpers and both front ends (real statistics/reconstruction/relabel) run with '
+      'read-only caller data, matrix lambda and vector beta on every explored path, including failing calls; '
+      'obligations: no write attempt, term-equal snapshots, list of series untouched.',
+      _TB + 'One memory layout (Fortran order outside); larger optimiser shapes run on concrete inputs (write detection '
+      'only).', 'DESIGN.md section 5, C19')
+claim('C20',
+      'Symbolic fault schedule: a fault at a symbolic (round, cluster) optimisation task of the stub pool or at a '
+      'symbolic (round, phase), with the multiprocessing variable set/unset and num_processors symbolic; obligations: '
+      'the very exception object surfaces, nothing runs after the fault, nothing is returned, the pool is released '
+      'before the exception leaves, a following clean call equals a fresh clean call; donor shortage and wrong input '
+      'kind raise the documented errors. Pool-release candidates are confirmed on the real build (live children).',
+      _TB + 'Real child-process liveness and hangs are decided only through replay of candidates.',
+      'DESIGN.md section 5, C20')
+
 _PENDING = 'check not built yet in this round (design in DESIGN.md section 5); will be claimed when its harness lands'
-for _p in ['C14', 'C18', 'C19', 'C20']:
-    na(_p, _PENDING)
 na('C15', 'compares Numba-generated machine code (LLVM/NRT/BLAS calls, prange threads) with the interpreted source; '
           'no engine in this sandbox executes that symbolically and a hand IR->SMT translator for allocating, '
           'BLAS-calling code is out of reach (DESIGN.md section 6)')
